@@ -16,6 +16,15 @@ CHECKS = {
             'oracle: reference model of the documented rank order',
             'Every history in the bounded space is executed on the implementation and compared with a reference '
             'model of the documented order; exhaustive inside the alphabet and depth, silent outside it.', '2/C01'),
+    'C02': ('explicit-state enumeration of creation/suppression histories (depth 3/4 over a curated alphabet, depth 2 over '
+            'the systematic category x correct x valence x state cross) on the real report + simple.resolve; oracle: '
+            'conjunction of correct flags over eligible feedbacks',
+            'Every bounded history is executed and the correct/success/to_json verdicts compared with the statement; '
+            'exhaustive within alphabet and depth.', '2/C02'),
+    'C03': ('explicit-state enumeration of score x valence x trigger x flag combinations and sequences, suppression sets, '
+            'and the unit_test() partial-credit space on the real resolver; oracle: exact Fraction arithmetic from the statement',
+            'Every bounded history is executed and the final score compared with an exact reference; exhaustive within '
+            'alphabet and depth.', '2/C03'),
 }
 
 PENDING = ['C02', 'C03', 'C04', 'C05', 'C06', 'C07', 'C08', 'C09', 'C10', 'C11', 'C12', 'C13', 'C14', 'C15',
